@@ -199,6 +199,14 @@ def cls_env_matched_by_end(f):
         return False
 
 
+def cls_bare_arg_braces(f):
+    """C07: the input has a fixed-signature command whose mandatory argument
+    is a bare token."""
+    import oracles_parse as op
+    return isinstance(f.inp, str) and f.kind == 'tolerant-output-not-input-plus-closers' \
+        and op.has_bare_sig_arg(f.inp)
+
+
 def reproduces(k):
     """Replay the recorded example of a known finding on the current tree."""
     import impl
@@ -216,6 +224,8 @@ def reproduces(k):
         if kid == 'KF-env-matched-by-end':
             soup = impl.parse('\\newcommand{\\R}{\\end{a}}\\begin{a}x\\end{a}')
             return len(soup.find_all('\\end{a}')) != 1
+        if kid == 'KF-bare-arg-braces':
+            return str(impl.parse('\\textbf x', 1)) != '\\textbf x'
         if kid == 'KF-skip-env-body-group':
             soup = impl.parse('\\begin{verbatim}\n{x}\n\\end{verbatim}')
             return [str(c) for c in soup.verbatim.expr._contents] != ['\n{x}\n']
@@ -239,6 +249,7 @@ def reproduces(k):
 
 
 CLASSIFIERS = {
+    'bare_arg_braces': cls_bare_arg_braces,
     'env_matched_by_end': cls_env_matched_by_end,
     'renamed_item_replace_only_child': cls_renamed_item_replace_only_child,
     'bracket_env_name': cls_bracket_env_name,
